@@ -274,12 +274,18 @@ fn run_generate(
     }
 
     // Save cache after successful generation
+    let mut vouched_files = generated_files.clone();
+    if config.should_visualize_deps() {
+        vouched_files.push("dependency-graph.txt".to_string());
+        vouched_files.push("dependency-graph.dot".to_string());
+    }
     let cache = GenerationCache::with_events(
         &commands,
         discovered_structs,
         analyzer.get_discovered_events(),
         &config,
-    )?;
+    )?
+    .with_files(&vouched_files);
     if let Err(e) = cache.save(&config.output_path) {
         eprintln!("Warning: Failed to save generation cache: {}", e);
     }
